@@ -210,4 +210,27 @@ Proof. intros I1 I2 E1 E2. destruct (one_network H pkv s p1 p2 a1 a2 I1 I2 E1 E2
     destruct (b58_accept_not_segwit s data p2 a2 p1 I2 I1 DC E2) as [A B]. rewrite A, B in S1. discriminate.
   - destruct (too_long_for_base58 s); [discriminate|]. destruct (b58_decode_check H s) as [data|] eqn:DC; [|discriminate].
     destruct (b58_accept_not_segwit s data p1 a1 p2 I1 I2 DC E1) as [A B]. rewrite A, B in S2. discriminate. Qed.
+
+(* Corollary for C17 (closes the residual disjunct of C17_address_other_network_partial): a 1-2 symbol corruption of the data part of a
+   segwit address is rejected under EVERY built-in network, for every hash — the corrupted text keeps its HRP, so no other network can
+   read it as base58check either. *)
+Theorem address_corrupt_every_network p s a s' : In p builtin -> parse_with_params H pkv s p = AOk a -> is_segwit a -> data_edit s s' ->
+  forall p', In p' builtin -> exists e, parse_with_params H pkv s' p' = AErr e.
+Proof. intros Ip E SW ED p' Ip'. destruct (address_corrupt H pkv p s a s' Ip E SW ED) as (_ & [e Ee] & _).
+  destruct ED as (hrp & d0 & d' & w0 & w' & R0 & Es' & S0 & S' & LEN & HD). destruct (syms_of_spec _ _ S') as (_ & _ & NI').
+  assert (FP : find_prefix s = hrp) by (unfold find_prefix; now rewrite R0).
+  assert (FP' : find_prefix s' = hrp) by (unfold find_prefix; rewrite Es', (rsplit_app _ _ _ NI'); reflexivity).
+  assert (SP : match_prefix hrp (p_bech p) || match_prefix hrp (p_blech p) = true).
+  { unfold parse_with_params in E. rewrite FP in E. destruct (match_prefix hrp (p_bech p) || match_prefix hrp (p_blech p)); [reflexivity|exfalso].
+    destruct (too_long_for_base58 s); [discriminate|]. destruct (b58_decode_check H s) as [data|]; [|discriminate].
+    exact (from_base58_not_segwit _ _ _ _ E SW). }
+  destruct (parse_with_params H pkv s' p') as [a'|e'] eqn:E'; [exfalso|eauto].
+  pose proof E' as E2. unfold parse_with_params in E2. rewrite FP' in E2.
+  destruct (match_prefix hrp (p_bech p') || match_prefix hrp (p_blech p')) eqn:SP'.
+  - assert (p' = p); [|subst p'; congruence]. unfold match_prefix in *. apply orb_true_iff in SP, SP'.
+    assert (X1 : exists b1, eq_lower (hrp_of p' b1) hrp = true) by (destruct SP'; [exists false|exists true]; assumption).
+    assert (X2 : exists b2, eq_lower (hrp_of p b2) hrp = true) by (destruct SP; [exists false|exists true]; assumption).
+    destruct X1 as [b1 X1], X2 as [b2 X2]. exact (proj1 (builtin_hrps_distinct p' p b1 b2 Ip' Ip (eq_lower_trans_r _ _ _ X1 X2))).
+  - destruct (too_long_for_base58 s'); [discriminate|]. destruct (b58_decode_check H s') as [data|] eqn:DC; [|discriminate].
+    destruct (b58_accept_not_segwit s' data p' a' p Ip' Ip DC E2) as [A B]. rewrite FP' in A, B. rewrite A, B in SP. discriminate. Qed.
 End B58Addr.
